@@ -5,6 +5,8 @@ use std::sync::atomic::Ordering;
 mod var_level_map;
 pub use var_level_map::VarLevelMap;
 pub mod rwlock;
+#[cfg(oxidd_verif)]
+pub mod verif_lock;
 
 /// Invariant lifetime
 pub type Invariant<'id> = PhantomData<fn(&'id ()) -> &'id ()>;
@@ -23,6 +25,11 @@ impl TryLock {
     /// Returns true on success
     #[inline(always)]
     pub fn try_lock(&self) -> bool {
+        #[cfg(oxidd_verif)]
+        oxidd_core::verif::point(
+            oxidd_core::verif::class::GC_TRY_LOCK,
+            self as *const Self as usize,
+        );
         // If we read `false`, we acquired the lock, if we read `true`, we did
         // not.
         !self.0.swap(true, Ordering::Acquire)
